@@ -195,6 +195,34 @@ def rule_trunc(ctx):
             ok = True
         detail = 'raise %s under %s' % (name, texts)
     ctx.ob('A3.trunc', f, 'empty read of a non-zero size raises EndOfStreamError', ok, detail)
+    # no other outcome of a read may be reported as an error: None and short reads mean "not yet"
+    for g in sorted(G.family(ctx, 'on').leaves, key=lambda x: x.qualname):
+        gcfg = ctx.cfg(g)
+        greads = G._stream_read_calls(g)
+        gvars = []
+        for rc in greads:
+            st = G._stmt_of(rc, g.node)
+            if isinstance(st, ast.Assign) and isinstance(st.targets[0], ast.Name):
+                gvars.append(st.targets[0].id)
+        gvar = ', '.join(gvars) or None
+        for r in [n for n in gcfg.stmt_nodes() if n.kind == 'raisestmt']:
+            deps = []
+            work = [r]
+            seen = set()
+            while work:
+                x = work.pop()
+                for b, lab in gcfg.control_deps(x):
+                    if (b, lab) not in seen:
+                        seen.add((b, lab))
+                        deps.append((b, lab))
+                        work.append(b)
+            on_empty = any(b.kind == 'test' and lab == 'true' and any(
+                ('not %s' % v) in norm(b.ast.test) and ('%s is None' % v) not in norm(b.ast.test).replace('%s is not None' % v, '')
+                for v in gvars) for b, lab in deps)
+            ctx.ob('A3.trunc', g, 'raise `%s` only on an empty read' % norm(r.ast)[:50], on_empty,
+                   'a stream read that returned None or fewer octets than asked for means "not yet" (the caller retries): '
+                   'raising here turns an empty poll / short read into an error the complete input does not raise'
+                   if not on_empty else 'depends on `not %s`' % gvar, node=r.ast)
     # (b) end-of-stream probes
     fam = G.family(ctx, 'off')
     ies = ctx.func('codec.streaming.isEndOfStream')
@@ -833,3 +861,86 @@ def rule_state_machine(ctx):
         ok = all(after not in (cfg.reachable(b, avoid=movers) | {b} - movers) or b in movers for b in body_first)
         ctx.ob('A14.states', f, 'arm %s moves the state, raises or leaves on every path' % st, ok,
                'checked on the CFG of the arm', node=arm)
+
+
+# ------------------------------------------------------------------- A3.attr
+
+def rule_union_attr(ctx):
+    """A3.attr: a guiding-type variable that may hold a TagMap or an ASN.1 type object is only dereferenced through
+    attributes its possible kinds have (otherwise AttributeError escapes the decoder on the unusual kind)."""
+    tm = ctx.cls('type.tagmap.TagMap')
+    base = ctx.cls('type.base.Asn1Type')
+    from sa.rules.tables import type_universe
+    concrete = [c for c, tid, ts in type_universe(ctx)]
+
+    def on_tagmap(a):
+        o, d = tm.lookup(a)
+        return d is not None or a in ('__class__', '__dict__', '__doc__')
+
+    def on_types(a):
+        if a in ('__class__', '__dict__', '__doc__'):
+            return True
+        o, d = base.lookup(a)
+        if d is not None:
+            return True
+        return all(c.lookup(a)[1] is not None for c in concrete)
+    nvars = 0
+    for f in ctx.prog.all_functions():
+        if f.module.name not in DEC_MODULES:
+            continue
+        tests = [n for n in walk_own(f.node) if isinstance(n, ast.If) and isinstance(n.test, ast.Compare) and
+                 isinstance(n.test.left, ast.Attribute) and n.test.left.attr == '__class__' and isinstance(n.test.left.value, ast.Name)
+                 and isinstance(n.test.ops[0], ast.Is) and norm(n.test.comparators[0]).endswith('TagMap')]
+        if not tests:
+            continue
+        var = tests[0].test.left.value.id
+        nvars += 1
+        cfg = ctx.cfg(f)
+        rd = reaching_defs(cfg, f.params())
+        for n in cfg.stmt_nodes():
+            for e in node_exprs(n):
+                for x in ast.walk(e):
+                    attr = None
+                    if isinstance(x, ast.Attribute) and isinstance(x.value, ast.Name) and x.value.id == var and isinstance(x.ctx, ast.Load):
+                        attr = x.attr
+                    elif isinstance(x, ast.Subscript) and isinstance(x.value, ast.Name) and x.value.id == var and isinstance(x.ctx, ast.Load):
+                        attr = '__getitem__'
+                    if attr is None:
+                        continue
+                    # kind from the enclosing TagMap test / from a redefinition
+                    kind = 'unknown'
+                    cur = x
+                    for a in ancestors(x, f.node):
+                        if isinstance(a, ast.If) and a in tests:
+                            kind = 'tagmap' if any(cur is s or cur in list(ast.walk(s)) for s in a.body) and not any(
+                                cur in list(ast.walk(t)) for t in [a.test]) else ('type' if any(cur in list(ast.walk(s)) for s in a.orelse) else kind)
+                            break
+                    if kind == 'unknown':
+                        defs = rd[n].get(var, set())
+                        if defs and cfg.entry not in defs and all(
+                                d.kind == 'stmt' and isinstance(d.ast, ast.Assign) and not norm(d.ast.value).endswith('tagMapUnique')
+                                and 'TagMap' not in norm(d.ast.value) for d in defs):
+                            srcs = [norm(d.ast.value) for d in defs]
+                            if all(s_ in ('chosenSpec', 'self.protoComponent') or s_.endswith('.asn1Object') or s_.endswith('.componentType') for s_ in srcs):
+                                kind = 'type'
+                    if kind == 'tagmap':
+                        ok = on_tagmap(attr)
+                    elif kind == 'type':
+                        ok = on_types(attr)
+                    else:
+                        ok = on_tagmap(attr) and on_types(attr)
+                    if G.under_log(x, f.node) and ok:
+                        continue
+                    if f.short != 'codec.ber.decoder.SingleItemDecoder.__call__' and kind == 'tagmap':
+                        # payload decoders receive the spec already resolved by the item decoder (asn1Spec = chosenSpec);
+                        # a TagMap reaches them only through the non-default raw-dump error state
+                        ctx.ob('A3.attr', f, '%s.%s (%s)' % (var, attr, kind), True,
+                               'TagMap arm of a payload decoder: unreachable with the default error state%s' % (
+                                   '' if ok else '; `%s` would not exist on a TagMap' % attr), node=x, note=not ok)
+                        continue
+                    ctx.ob('A3.attr', f, '%s.%s (%s)' % (var, attr, kind), ok,
+                           '`%s` may be a TagMap here (member of a SET / optional run) as well as a type object; `%s` does not exist on %s: '
+                           'AttributeError would escape' % (var, attr, 'a TagMap' if not on_tagmap(attr) else 'every ASN.1 type') if not ok
+                           else 'valid for the kinds possible here', node=x)
+    if nvars < 2:
+        raise AnalysisError('A3.attr found %d union-kind variables' % nvars)
